@@ -15,3 +15,16 @@ package lexeme
 //@   requires errWF(err)
 //@   nopanic
 //@   ensures result.index == lex.begin && result.hasIndex && result.file == lex.file && result.code == errCodeOf(err) && !result.prepared
+
+// C06: the bytes of an event are the source bytes of its span
+//@ func (LexEvent).Value()
+//@   props C06 C04
+//@   requires lex.file != nil && lex.begin <= lex.end + 1 && lex.end + 1 <= cap(lex.file.content)
+//@   nopanic
+//@   ensures result.$arr == lex.file.content.$arr && result.$off == lex.file.content.$off + lex.begin && len(result) == lex.end + 1 - lex.begin && cap(result) == cap(lex.file.content) - lex.begin
+
+// every panic leaving a function guarded by this deferred call is a positioned
+// document error: library errors are positioned at the start of the lexeme
+//@ func CatchLexEventError(lex)
+//@   props C07 C17
+//@   inline
